@@ -1010,3 +1010,10 @@ Lemma ex_classes :
   /\ shared_output_class [ex_fg (s "//p:fga"); ex_a; ex_fg (s "//p:fgb")] = Some (s "two-targets-write-the-same-output-path")
   /\ shared_output_class [ex_fg (s "//p:fga"); ex_fg (s "//q:fgb")] = None.
 Proof. vm_compute. repeat split; reflexivity. Qed.
+
+Lemma shared_dir_refuted :
+  ~ (forall (n : nat) (stale : bool) (sched : list bool), dsafe n (drun false n sched (dinit n stale)) = true).
+Proof.
+  intros Hd. specialize (Hd 1 true dw_silent).
+  destruct dir_silent_witness as (_ & _ & _ & Hbad). cbv zeta in Hbad. rewrite Hd in Hbad. discriminate.
+Qed.
